@@ -2224,9 +2224,11 @@ impl DcpsDomainParticipant {
                                     }
                                 }
                             }
+                            // Replying to getTypeDependencies is not supported: the request of the
+                            // remote participant is left unanswered
                             TypeLookupCall::TypeLookupGetDependenciesHash {
                                 get_type_dependencies: _,
-                            } => todo!(),
+                            } => (),
                         }
                     }
                 }
